@@ -247,6 +247,29 @@ func (c *Conc) do(op COp) string {
 			return "err:" + err.Error()
 		}
 		return "ok"
+	case "close":
+		if err := c.db.Close(); err != nil {
+			return "err:" + err.Error()
+		}
+		return "ok"
+	case "bulk":
+		ch := make(chan sod.Object, len(op.Batch)+1)
+		var recs []*shapes.Rec
+		for _, b := range op.Batch {
+			o := model.Clone(b.Rec)
+			o.Initialize(c.uuidOf(b.Lid))
+			o.Lid = b.Lid
+			ch <- o
+			recs = append(recs, o)
+		}
+		close(ch)
+		n, err := c.db.InsertOrUpdateBulk(ch, 1)
+		for i, b := range op.Batch {
+			if i < n {
+				c.setUUID(b.Lid, recs[i].UUID())
+			}
+		}
+		return fmt.Sprintf("%d|%s", n, ErrClass(err))
 	case "commit":
 		if err := c.db.Commit(rec0()); err != nil {
 			return "err:" + err.Error()
@@ -420,7 +443,7 @@ func cstep(cons map[string]model.Cons, asyncMode bool, m *model.Model, op COp, o
 			return true, m // only required to succeed when nothing is pending
 		}
 		return out == "ok", m
-	case "flush", "commit", "create":
+	case "flush", "commit", "create", "close":
 		return out == "ok", m
 	}
 	return false, m
@@ -485,6 +508,10 @@ func genConc(r *simrt.Rand, cfg *Config, pools *Pools, heavyReaders, linear bool
 	if heavyReaders {
 		kinds = []string{"put", "put", "del", "all", "all", "assignall", "assignall", "search", "search", "count", "delall", "many", "sdel", "get"}
 	}
+	kinds = append(kinds, "close")
+	if !linear {
+		kinds = append(kinds, "bulk", "bulk", "create")
+	}
 	if linear {
 		// Search(...).Delete() is an evaluation followed by a deletion: two calls
 		var ks []string
@@ -529,7 +556,7 @@ func genConc(r *simrt.Rand, cfg *Config, pools *Pools, heavyReaders, linear bool
 						op.Q = g.query(false) // chained refinement
 					}
 				}
-			case "many":
+			case "many", "bulk":
 				nb := 1 + r.Intn(3)
 				seen := map[int]bool{}
 				for j := 0; j < nb; j++ {
@@ -562,8 +589,17 @@ func genConc(r *simrt.Rand, cfg *Config, pools *Pools, heavyReaders, linear bool
 				nc := *cfg
 				nc.Cache = r.Bool()
 				if cfg.Async {
-					// keep async on (C10/C17 cover switching it off): thresholds change
 					nc.Threshold = []int{1, 2, 3, 1000}[r.Intn(4)]
+				}
+				if !linear && r.Chance(1, 2) {
+					// live switch of async writes while other clients and the flusher run
+					nc.Async = !cfg.Async || r.Bool()
+					if nc.Async && nc.Threshold == 0 {
+						nc.Threshold, nc.TimeoutMs = []int{1, 2, 1000}[r.Intn(3)], []int64{100, 1000, 3600000}[r.Intn(3)]
+					}
+					if r.Chance(1, 3) {
+						nc.Async = false
+					}
 				}
 				op.NCfg = &nc
 			}
